@@ -404,15 +404,18 @@ def craft_crc_boundary(kind, cfg, p, where="header", target=0):
     raw = ref_octets(kind, cfg, p)
     idw, seqw = cfg["idw"], cfg["seqw"]
     hl = R.header_len(idw, seqw)
-    if where == "header":
-        if seqw < 2:
+    if where in ("header", "whole"):
+        # "whole": the CRC over everything in front of the trailer is `target`, i.e. the trailer itself is 0x0000 / 0xFFFF
+        if seqw < 2 or (where == "whole" and not cfg["crc"]):
             return None
         k = 4 + idw + seqw - 2
-        x = find16(raw[:k], lambda x: x.to_bytes(2, "big") + raw[k + 2:hl], target)
+        end = hl if where == "header" else len(raw) - 2
+        x = find16(raw[:k], lambda x: x.to_bytes(2, "big") + raw[k + 2:end], target)
         if x is None:
             return None
         cfg2 = dict(cfg, seq=(cfg["seq"] & ~0xFFFF) | x)
-        assert crc16(ref_octets(kind, cfg2, p)[:hl]) == target
+        r2 = ref_octets(kind, cfg2, p)
+        assert crc16(r2[:hl] if where == "header" else r2[:-2]) == target
         return cfg2, p
     if where == "offset" and kind == "file_data":
         fss = 8 if cfg["large"] else 4
